@@ -285,7 +285,7 @@ def run_lin(case):
                 return violated(sig, "application writes into its input: %s" % inn, wit,
                                 mech="writes-input")
             raise
-        if nrm(yr - ref) > dtol * max(nrm(ref), 1e-300):
+        if nrm(yr - ref) > dtol * max(nrm(ref), 1e-3 * nrm(x), 1e-300):
             return violated(sig, "read-only input gives a different result", wit,
                             mech="nondeterministic")
         # non-contiguous view of equal values
@@ -297,7 +297,7 @@ def run_lin(case):
             big0 = big.copy()
             yv = np.asarray(A(xv))
             checks += 1
-            if nrm(yv - ref) > dtol * max(nrm(ref), 1e-300):
+            if nrm(yv - ref) > dtol * max(nrm(ref), 1e-3 * nrm(x), 1e-300):
                 return violated(sig, "non-contiguous view of an equal input gives a "
                                 "different result", wit, mech="view")
             if not np.array_equal(big, big0):
@@ -341,8 +341,9 @@ def _func_call(fn, rng):
     nd = int(rng.integers(1, 4))
     shape = [int(rng.integers(2, 7)) for _ in range(nd)]
     if fn in ("fft", "ifft"):
-        return getattr(sp, fn), (arr(shape),), {"axes": None if rng.random() < 0.5 else [-1],
-                                                "center": bool(rng.random() < 0.5)}, (), cls
+        return getattr(sp, fn), (arr(shape),), {
+            "axes": pick(rng, [None, [-1], [-1, 0] if nd >= 2 else [-1], [0]]),
+            "center": bool(rng.random() < 0.5)}, (), cls
     if fn in ("nufft", "nufft_adjoint", "toeplitz_psf", "interpolate", "gridding",
               "estimate_shape"):
         g = [int(rng.integers(3, 8)) for _ in range(min(nd, 2))]
@@ -407,7 +408,8 @@ def _func_call(fn, rng):
         return sp.resize, (arr(shape), [max(1, s + int(rng.integers(-2, 3))) for s in shape]), \
             {}, (), cls
     if fn == "flip":
-        return sp.flip, (arr(shape),), {"axes": None if rng.random() < 0.5 else [0]}, (), cls
+        return sp.flip, (arr(shape),), {
+            "axes": pick(rng, [None, [0], [-1, 0] if nd >= 2 else [-1], [-1]])}, (), cls
     if fn == "circshift":
         return sp.circshift, (arr(shape), [int(rng.integers(-3, 4)) for _ in shape]), {}, (), cls
     if fn == "downsample":
@@ -458,6 +460,17 @@ def run_func(case):
     rng = np.random.default_rng(case["fseed"])
     fn = case["fn"]
     f, args, kwargs, exclude, cls = _func_call(fn, rng)
+    if case["fseed"] % 2:
+        # integer-sequence arguments (axes, shapes, shifts, factors, block sizes) handed over as
+        # NumPy integer arrays: arrays passed to the function like any other - never modified
+        def arrayify(o):
+            if isinstance(o, list) and o and all(isinstance(v, (int, np.integer)) and
+                                                 not isinstance(v, bool) for v in o):
+                return np.asarray(o, dtype=np.int64)
+            return o
+        args = tuple(arrayify(a_) for a_ in args)
+        kwargs = {k_: arrayify(v_) for k_, v_ in kwargs.items()}
+        cls += "|intarr"
     sig = "func|%s|%s" % (fn, cls)
     snaps = _snap([list(args), kwargs])
     # make one array argument read-only in half of the cases: a hidden write then raises
